@@ -128,7 +128,11 @@ static void slice_check(mu *u, uint64_t y_inv)
             S.concurrent_reqs++;
             break;
         }
-    if (!conc_ok && u->inflight_pool == seen) {
+    /* (a request call in flight that names the pool the unit is seen in explains the move only if
+     * nothing completed does: when the last completed request names that pool too, the move is
+     * that request's, the call in flight may yet be refused -- the unit is there already --, and
+     * the requests accepted in between are still owed) */
+    if (!conc_ok && u->inflight_pool == seen && !(fin >= 0 && u->R[fin].pool == seen)) {
         if (seen == u->cur_pool) {
             /* A request call in flight names the pool the unit was in all along.  Either it is
              * going to be rejected (and overrides nothing), or it was validated long ago while
